@@ -214,7 +214,15 @@ def coerceLitCore (s : Schema) (vars : Vars) (dflt : TypeRef → Value → Optio
     | some (.input _ defs) =>
       let res := coerceFields s vars dflt defs fs
       if res.any (fun p => match p.2 with | .undefinedField => true | _ => false) then none
-      else (assemble dflt res defs).map (fun kvs => wrapN k (.dict kvs))
+      else
+        match assemble dflt res defs with
+        | none => none
+        | some kvs =>
+          -- `@oneOf`: exactly one provided field, with a non-null value
+          if s.isOneOf n &&
+              !((fs.map (·.1)).eraseDups.length == 1 && kvs.length == 1 &&
+                kvs.all (fun p => match p.2 with | .null => false | _ => true)) then none
+          else some (wrapN k (.dict kvs))
     | _ => none
   | t, .enum e =>
     let (k, n) := unwrapLists t
